@@ -49,8 +49,11 @@ CHECKS = {
     "C07": (
         "Coq proof (state-machine lemmas over all histories: fail-fast window, single probe, close/reopen) tied by in-Coq correspondence on breaker histories and policy-level histories/interleavings",
         "Theorems C07_* hold for every configuration and history of the specification machine that C06_refinement ties to the "
-        "circuit.py model; correspondence on open/half-open-cycle histories (random + exhaustive small scope), disagreements that "
-        "start while OPEN/HALF_OPEN are attributed to C07.",
+        "circuit.py model, plus policy level (C07_policy_open_rejects, C07_policy_rejected_call on Policy.v); correspondence on "
+        "open/half-open-cycle breaker histories (random + exhaustive small scope; disagreements that start while OPEN/HALF_OPEN are "
+        "attributed to C07) and on policy call sequences (projection: admissions, invocations, records). Two known findings "
+        "(records issued by a call that is not the probe) are kept with _refuted theorems and replayed on every run. Interleavings of "
+        "concurrent async calls are not a theorem.",
         "Trusted: as C06; policy-level part additionally trusts the scripted-world harness and hand-driven coroutines.",
         "DESIGN.md §5 C07",
     ),
@@ -121,6 +124,27 @@ CHECKS = {
         "Breaker-event emission by Policy is covered by correspondence only.",
         RUNNER_NOTE, "DESIGN.md §4 C15",
     ),
+    "C08": (
+        "Coq proof (case analysis of the wrapper's settlement for every delivery of the inner run; invariant 'no probe in flight between calls' by induction over call sequences; no-wedge lemma on the breaker) tied by in-Coq correspondence on spy-breaker calls with cancellation / nested-error injection into hand-driven coroutines, plus the probe-in-flight oracle on the real breaker",
+        "Theorems C08_* (every admitted call issues exactly one record whatever the operation, before_sleep or the sleeper "
+        "raise; every record releases the probe slot; after any sequence of ended calls no probe is in flight; with no call "
+        "outstanding the next call is admitted once recovery_timeout has elapsed) for the Gallina model of the policy wrappers "
+        "composed with the retry-loop and breaker models, as repaired by fix commit 4805882 (the check demonstrated the defect on "
+        "the pinned tree: findings/witness/C08-pinned-tree.json). Raising attempt hooks/classifiers/strategies are outside the "
+        "model.",
+        "Trusted: Coq kernel + vm_compute; hand-written models Policy.v/Runner.v/Breaker.v (tied by correspondence only); scripted-"
+        "world driver, spy breaker, virtual clock, hand-driven coroutines; calls on one breaker are sequential in these runs.",
+        "DESIGN.md §5 C08",
+    ),
+    "C09": (
+        "Coq proof (the breaker operations of one policy call = [allow] or [allow; one record]; record kind as a function of the delivery; loop events contain no breaker operation) tied by in-Coq correspondence on spy-breaker calls over call/execute x retry/no-retry x sync/async sequences",
+        "Theorems C09_exactly_one, C09_kind, C09_not_per_attempt for all configurations/environments of the Gallina model of the "
+        "policy wrappers (Policy.v) composed with Runner.v and Breaker.v; pre-flight aborts of policies without retry component "
+        "are excluded by hypothesis (never admitted; known finding under C07).",
+        "Trusted: as C08; classifiers are functions of the exception; nested RetryExhaustedError carries last_class=TRANSIENT in "
+        "the scripts.",
+        "DESIGN.md §5 C09",
+    ),
 }
 
 NOT_YET = "check not built yet at this commit (work in progress; see DESIGN.md §10 build order)"
@@ -154,7 +178,7 @@ def main():
             "enable": "no source hooks are needed: checks import /repo/src as it is (PYTHONPATH=/repo/src) and "
             "observe it through scripted callbacks, spies and a virtual clock; REDRESS_VERIF=1 is exported but unused",
             "baseline_off_cmd": "cd /repo && /venv/bin/python -m pytest -ra -q -p no:cacheprovider --timeout=900",
-            "source_commits": ["7959b97"],
+            "source_commits": ["7959b97", "4805882"],
             "add_only": True,
         },
         "engines": [
